@@ -15,7 +15,7 @@ def ranks(tier):
 
 
 class ArrayOpSpec(FuncSpec):
-    props = ("C01", "C12", "C17")
+    props = ("C01", "C12", "C17", "C19")
     explicit = (ValueError, TypeError, NotImplementedError, IndexError)
 
     def install(self, c):
